@@ -45,8 +45,8 @@ H("x64_core_redirect", variant="x64-linux", modules=["rt", "x64dec", "x64_core"]
           "COVER: trampoline above the target", "COVER: trampoline below the target"],
   functions=X64_CORE_FUNCS,
   symbolic="f in [4096,2^46) any page offset; 24 initial entry bytes; t in [1,2^63); trampoline j = any free page with |j-f| <= 128 MiB; full register file, rsp, return address",
-  bounds="one installation + drop; loop unwind 26 (covers every loop in the path; unwinding assertions on); cooperative kernel (first mmap succeeds in range)",
-  assumptions=["cooperative kernel: the first hinted mmap returns a free page within +-128 MiB of the target (retry loop is C11's)",
+  bounds="one installation + drop; loop unwind 26 (covers every loop in the path; unwinding assertions on)",
+  assumptions=["allocate_jit_memory is replaced by its contract (a fresh page anywhere within +-128 MiB of the target); the real retry loop + real entry branch are decided by the x64_alloc harnesses (C11)",
                "the fake's address is not inside the patched entry slot or the trampoline page"],
   cex_schema=[("f", 8, 1), ("entry_bytes", 1, 24), ("t", 8, 1), ("j", 8, 1)],
   replay="replay_x64_core")
@@ -54,7 +54,7 @@ H("x64_core_boolean", variant="x64-linux", modules=["rt", "x64dec", "x64_core"],
   covers=["COVER: true", "COVER: false"],
   functions=X64_CORE_FUNCS,
   symbolic="f, 24 entry bytes, value in {true,false}, j as above; full register file, rsp, return address",
-  bounds="one installation + drop; loop unwind 26; cooperative kernel",
+  bounds="one installation + drop; loop unwind 26",
   cex_schema=[("f", 8, 1), ("entry_bytes", 1, 24), ("value", 1, 1), ("j", 8, 1)],
   replay="replay_x64_core")
 
@@ -430,8 +430,11 @@ def premise_counter_is_single_rmw(work, tier):
         if m:
             owner = int(m.group(1))
             continue
-        if re.match(r'fn fake\(', it) and owner is not None and owner not in fakes:
-            fakes[owner] = it
+        m = re.match(r'fn (?:build_(\d+)::)?fake\(', it)
+        if m:
+            who = int(m.group(1)) if m.group(1) else owner
+            if who is not None and who not in fakes:
+                fakes[who] = it
     bad, good, samples = [], 0, []
     for a in al:
         b = fakes.get(a["index"])
